@@ -112,6 +112,38 @@ func socketSites(p *Program) []sockSite {
 					pt = sig.Params().At(sig.Params().Len() - 1).Type()
 				}
 				if pt != nil && hasWriteMethod(pt) {
+					// a function of the module that only calls non-writing methods on the socket it is given (moves a
+					// deadline) and neither keeps nor passes it on is not a second writer
+					if callee := p.FuncOf(fn); callee != nil && callee.Decl.Body != nil && callee.Pkg == p.Root && i < sig.Params().Len() {
+						pv := sig.Params().At(i)
+						cinfo := callee.Pkg.TypesInfo
+						harmless, uses := true, 0
+						ast.Inspect(callee.Decl.Body, func(x ast.Node) bool {
+							id, isId := x.(*ast.Ident)
+							if !isId || cinfo.Uses[id] != types.Object(pv) {
+								return true
+							}
+							uses++
+							sel, isSel := p.Parent(id).(*ast.SelectorExpr)
+							if !isSel || sel.X != ast.Expr(id) {
+								harmless = false
+								return true
+							}
+							call, isCall := p.Parent(sel).(*ast.CallExpr)
+							if !isCall || call.Fun != ast.Expr(sel) {
+								harmless = false
+								return true
+							}
+							switch sel.Sel.Name {
+							case "Write", "ReadFrom", "WriteTo", "WriteString", "Close":
+								harmless = false
+							}
+							return true
+						})
+						if harmless && uses > 0 {
+							continue
+						}
+					}
 					out = append(out, sockSite{c, "handoff", name, fi, a})
 				}
 			}
@@ -1072,6 +1104,23 @@ func c07r5(p *Program, r *Report) {
 							if ch, ok := sl.Elem().Underlying().(*types.Chan); ok && typeNameOf(ch.Elem()) == "writeResult" {
 								nr++
 							}
+							// one queue of requests, each carrying its frame and its result channel
+							if st, ok := sl.Elem().Underlying().(*types.Struct); ok {
+								hasBuf, hasCh := false, false
+								for i := 0; i < st.NumFields(); i++ {
+									ft := st.Field(i).Type()
+									if isByteSlice(ft) {
+										hasBuf = true
+									}
+									if ch, isCh := ft.Underlying().(*types.Chan); isCh && typeNameOf(ch.Elem()) == "writeResult" {
+										hasCh = true
+									}
+								}
+								if hasBuf && hasCh {
+									nb++
+									nr++
+								}
+							}
 						}
 					}
 				}
@@ -1247,6 +1296,15 @@ func c07r7(p *Program, r *Report) {
 							if fv := fieldOf(info, snd.Chan); fv != nil && strings.Contains(strings.ToLower(fv.Name()), "sem") {
 								hasAcquire = true
 								return 1
+							}
+						}
+						// the failure state read into a local after the token was acquired (err = c.err; if err == nil ..):
+						// the value that decides is the current one
+						if as, isAs := step.Node.(*ast.AssignStmt); isAs && st == 1 {
+							for _, rhs := range as.Rhs {
+								if mentions(exprStr(rhs), guard) {
+									return 2
+								}
 							}
 						}
 					case StCond:
